@@ -14,8 +14,18 @@ def run(tier, seed):
         tr = os.path.join(d, "trace.ndjson")
         args = ["c13", "-out", tr, "-seed", seed]
         args += ["-forests", 500, "-maxblocks", 9, "-ops", 30] if tier == "quick" else ["-forests", 12000, "-maxblocks", 14, "-ops", 45]
-        vlib.run_harness(args, timeout=3000)
-        rows = vlib.read_ndjson(tr)
+        died = None
+        try:
+            # (quick finishes in seconds; a driver that is still running after a few minutes is stuck inside the code under test)
+            vlib.run_harness(args, timeout=240 if tier == "quick" else 3000, partial_ok=True)
+            rows = vlib.read_ndjson(tr)
+        except vlib.HarnessDied as e:
+            # the code under test took the driver down (e.g. an endless walk over a corrupted store): what it did before is on disk and
+            # is judged; only if that shows nothing wrong is this an infrastructure error
+            died = str(e)
+            rows = vlib.read_ndjson_partial(tr)
+            if not rows:
+                raise vlib.InfraError(died)
         allrows = rows
         states = 0
         drift = None
@@ -47,6 +57,8 @@ def run(tier, seed):
             if rb.status == "violation":
                 drift = vlib.last_l(rb)
                 v.warn("conformance drift at line %d: %s" % (drift, rows[drift - 1]))
+    if died and not v.violations:
+        raise vlib.InfraError("driver died and the trace up to there shows no violation: " + died)
     rc = v.finish()
     rows = allrows
     ops = {}
